@@ -362,6 +362,31 @@ pub fn add_sections(rep: &mut Report, prop: &str, thorough: bool, conformant_onl
         rep.add(sec);
     }
     {
+        // element counts: n revoked entries (distinct serials of growing length; every 7th with reason + invalidity date), n IDP URIs
+        let counts: Vec<usize> = vec![0, 1, 2, 3, 16, 126, 127, 128, 129, 255, 256, 257, 1000, 3000];
+        let mut cases: Vec<(usize, usize)> = counts.iter().map(|n| (0usize, *n)).collect();
+        cases.extend(counts.iter().filter(|n| **n > 0 && **n <= 1000).map(|n| (1usize, *n)));
+        let sec = Section::new("crl/sweep/element-counts", "CRLs with 0,1,2,3,16,126..129,255..257,1000,3000 revoked entries (entries differ in serial length, every 7th carries a reason and an invalidity date; entry i and the last entry are looked up by the independent checkers) and issuing distribution points with that many URIs");
+        run::sweep_cases(&sec, &cases, &|c| format!("{} x {}", ["revoked entries", "idp uris"][c.0], c.1), &|c| {
+            let mut st = CrlState::default();
+            if c.0 == 0 {
+                st.revoked = (0..c.1)
+                    .map(|i| {
+                        let mut serial = (i as u32 + 1).to_be_bytes().to_vec();
+                        if i % 5 == 0 {
+                            serial.insert(0, 0x7f);
+                        }
+                        RevokedSpec { serial, time: TimeSpec::ymd(2023, 1, 1 + (i % 28) as u32), reason: if i % 7 == 6 { Some(1) } else { None }, invalidity: if i % 7 == 6 { Some(TimeSpec::ymd(2022, 12, 1)) } else { None } }
+                    })
+                    .collect();
+            } else {
+                st.idp = Some(IdpSpec { uris: (0..c.1).map(|i| format!("http://crl.example/{}", i)).collect(), scope: None });
+            }
+            judge(prop, &known, &CrlCase { st, issuer: 0 }, &iss, c.1 <= 1000)
+        });
+        rep.add(sec);
+    }
+    {
         // crl numbers: all byte strings of length <= 2
         let mut nums: Vec<Vec<u8>> = vec![vec![]];
         for a in 0..=255u8 {
